@@ -72,3 +72,95 @@ Proof.
   rewrite firstn_all2 by (rewrite app_length, firstn_length; lia).
   replace (off + length src - (off + length src))%nat with 0%nat by lia. cbn [firstn]. now rewrite app_nil_r.
 Qed.
+
+(* ---------- more list algebra (8.16 lacks skipn_skipn, firstn_repeat) ---------- *)
+Lemma skipn_skipn' {A} (l : list A) a b : skipn a (skipn b l) = skipn (b + a) l.
+Proof.
+  revert l; induction b as [|b IH]; intros l; cbn [Nat.add]; [reflexivity|].
+  destruct l as [|x l]; [now rewrite !skipn_nil|]. cbn [skipn]. apply IH.
+Qed.
+Lemma firstn_repeat {A} (x : A) n k : firstn k (repeat x n) = repeat x (Nat.min k n).
+Proof.
+  revert k; induction n as [|n IH]; intros k; destruct k; cbn; try reflexivity. now rewrite IH.
+Qed.
+Lemma skipn_repeat {A} (x : A) n k : skipn k (repeat x n) = repeat x (n - k).
+Proof.
+  revert k; induction n as [|n IH]; intros k; destruct k; cbn; try reflexivity. now rewrite IH.
+Qed.
+Lemma firstn_succ_blocks {A} (l : list A) B k : firstn ((k + 1) * B) l = firstn B l ++ firstn (k * B) (skipn B l).
+Proof.
+  replace ((k + 1) * B)%nat with (B + k * B)%nat by lia.
+  rewrite <- (firstn_skipn B l) at 1.
+  destruct (Nat.le_gt_cases B (length l)) as [H|H].
+  - rewrite firstn_app, firstn_length, Nat.min_l by lia.
+    rewrite (firstn_all2 (n := (B + k * B)%nat) (firstn B l)) by (rewrite firstn_length; lia).
+    replace (B + k * B - B)%nat with (k * B)%nat by lia. reflexivity.
+  - rewrite (skipn_all2 l) by lia. rewrite firstn_nil, !app_nil_r.
+    rewrite (firstn_all2 l) by lia. rewrite firstn_all2 by lia. reflexivity.
+Qed.
+
+Lemma write_at_app_r dst_l dst_r k src :
+  write_at (dst_l ++ dst_r) (length dst_l + k) src = dst_l ++ write_at dst_r k src.
+Proof.
+  unfold write_at. rewrite firstn_app_2, skipn_app.
+  rewrite (skipn_all2 dst_l) by lia. cbn [app].
+  replace (length dst_l + k + length src - length dst_l)%nat with (k + length src)%nat by lia.
+  now rewrite <- app_assoc.
+Qed.
+Lemma write_at_app_l dst_l dst_r k src : (k + length src <= length dst_l)%nat ->
+  write_at (dst_l ++ dst_r) k src = write_at dst_l k src ++ dst_r.
+Proof.
+  intros H. unfold write_at. rewrite firstn_app, skipn_app.
+  replace (k - length dst_l)%nat with 0%nat by lia.
+  replace (k + length src - length dst_l)%nat with 0%nat by lia.
+  cbn [firstn skipn]. now rewrite app_nil_r, <- !app_assoc.
+Qed.
+Lemma write_at_repeat (x : N) n k src : (k + length src <= n)%nat ->
+  write_at (repeat x n) k src = repeat x k ++ src ++ repeat x (n - k - length src).
+Proof.
+  intros H. unfold write_at. rewrite firstn_repeat, skipn_repeat, Nat.min_l by lia.
+  do 3 f_equal. lia.
+Qed.
+Lemma write_at_decompose dst off src : (off + length src <= length dst)%nat ->
+  write_at dst off src = firstn off dst ++ src ++ skipn (off + length src) dst.
+Proof. reflexivity. Qed.
+Lemma write_at_firstn_le dst off src k : (k <= off)%nat -> (off <= length dst)%nat ->
+  firstn k (write_at dst off src) = firstn k dst.
+Proof.
+  intros H1 H2. unfold write_at. rewrite firstn_app, firstn_firstn, Nat.min_l by lia.
+  rewrite firstn_length, Nat.min_l by lia. replace (k - off)%nat with 0%nat by lia.
+  cbn [firstn]. now rewrite app_nil_r.
+Qed.
+
+(* ---------- big-endian packing ---------- *)
+Lemma le_bytes_app j k v : le_bytes (j + k) v = le_bytes j v ++ le_bytes k (v / 256 ^ N.of_nat j).
+Proof.
+  revert v; induction j as [|j IH]; intros v.
+  - cbn [Nat.add le_bytes app N.of_nat]. now rewrite N.pow_0_r, N.div_1_r.
+  - cbn [Nat.add le_bytes app]. f_equal. rewrite IH. f_equal. f_equal.
+    rewrite Nat2N.inj_succ, N.pow_succ_r', N.div_div by (try apply N.pow_nonzero; discriminate). reflexivity.
+Qed.
+Lemma le_bytes_zero k : le_bytes k 0 = repeat 0 k.
+Proof. induction k as [|k IH]; [reflexivity|]. cbn [le_bytes repeat]. now rewrite N.mod_0_l, N.div_0_l, IH by discriminate. Qed.
+Lemma rev_repeat' {A} (x : A) n : rev (repeat x n) = repeat x n.
+Proof.
+  induction n as [|n IH]; [reflexivity|]. cbn [repeat rev]. rewrite IH.
+  change [x] with (repeat x 1). rewrite <- repeat_app. now rewrite Nat.add_1_r.
+Qed.
+Lemma be_bytes_widen j k v : v < 256 ^ N.of_nat j -> be_bytes (k + j) v = repeat 0 k ++ be_bytes j v.
+Proof.
+  intros H. unfold be_bytes. rewrite Nat.add_comm, le_bytes_app, rev_app_distr.
+  rewrite N.div_small by exact H. rewrite le_bytes_zero, rev_repeat'. reflexivity.
+Qed.
+
+Lemma chunks_length_mult {A} B k (l : list A) : (0 < B)%nat -> length l = (k * B)%nat -> length (chunks B l) = k.
+Proof.
+  intros HB. revert l. induction k as [|k IH]; intros l Hl.
+  - destruct l; [reflexivity|simpl in Hl; lia].
+  - rewrite <- (firstn_skipn B l).
+    assert (length (firstn B l) = B) by (rewrite firstn_length; simpl in Hl; lia).
+    rewrite chunks_app_block by assumption. cbn [length]. f_equal. apply IH.
+    rewrite skipn_length. simpl in Hl. lia.
+Qed.
+Lemma chunks_single {A} B (blk : list A) : (0 < B)%nat -> length blk = B -> chunks B blk = [blk].
+Proof. intros HB H. rewrite <- (app_nil_r blk) at 1. rewrite chunks_app_block by assumption. reflexivity. Qed.
